@@ -41,6 +41,10 @@ ROOT = [
     (r'^alloc ', 'more than 256 MiB allocated by one call on pool arguments'),
     (r'^crash:.*world broken after fn=common-lisp:unuse-package',
      'after (unuse-package p) for a package the current package does not use (or uses), Package.Unuse rebuilds the current package from its use list and drops its own functions, variables and classes; the next defflavor/make-instance in that package ends in a nil pointer dereference (interpreter unusable)'),
+    (r'^crash:.*args=\(.*big40', '{fn}: a count of 2^40 is handed to the Go allocator unchecked; the runtime cannot satisfy it and the whole process dies with fatal error: out of memory (an error condition about the size is expected)'),
+    (r'^crash:.*src "@infinite-recursion"', 'unbounded recursion ((defun f (n) (1+ (f n))) (f 1)) is not stopped by any depth limit: the Go stack overflows and the whole process dies with fatal error: stack overflow, which no handler can catch'),
+    (r'^crash:.*src ', 'evaluating the program text kills the process'),
+    (r'^fault=.* src=', 'program text {src}: Go runtime fault ({kind}) reported as an error condition'),
     (r'^crash:.*fn=gi:run',
      'gi:run evaluates its form in a goroutine without recover: any condition in it (unbound variable, not a function) is an unrecovered Go panic that kills the whole process'),
     (r'^crash:', 'the process died (Go fatal error / unrecovered panic)'),
@@ -49,12 +53,6 @@ ROOT = [
 # Findings that never return: re-observed on every run through a probe witness
 # (the inner call runs in a process of its own for 4 s, see execProbe in c09.go).
 HANGS = [
-    {"signature": "hang-or-oom fn=common-lisp:do raw args=(list,list)",
-     "witness": {"k": "probe", "sub": "fn", "fn": "common-lisp:do", "raw": True, "args": ["list1", "list3"]},
-     "what": "(do () (t)) and (do (a) (1 2 3)) never return: setupDo only installs an end-test form that is a list ((do () ((null x)) ...)); a symbol or literal end-test such as t, done or 1 is silently dropped, test stays nil and the loop runs for ever. Hangs the interpreter, not interruptible. Avoided in generation: do with >= 2 arguments in quoted mode, and in raw mode when the 2nd argument is a list (skiptable.go: do-nonlist-end-test)."},
-    {"signature": "hang-or-oom fn=common-lisp:do<star> raw args=(list,list)",
-     "witness": {"k": "probe", "sub": "fn", "fn": "common-lisp:do*", "raw": True, "args": ["list1", "list3"]},
-     "what": "(do* () (t)) never returns, same cause as do (shared setupDo drops an end-test form that is not a list). Avoided in generation like do (skiptable.go: do-nonlist-end-test)."},
     {"signature": "hang-or-oom fn=common-lisp:read-line args=(closedstream)",
      "witness": {"k": "probe", "sub": "fn", "fn": "common-lisp:read-line", "args": ["closed-stream"]},
      "what": "(let ((s (make-string-input-stream \"x\"))) (close s) (read-line s)) never returns (spins in Go, no condition). Avoided in generation: read-line with a closed string stream as first argument (skiptable.go: read-line-closed-stream)."},
@@ -64,9 +62,6 @@ HANGS = [
     {"signature": "hang-or-oom fmt ctl=\"~5,0A\" args=(posint)",
      "witness": {"k": "probe", "sub": "fmt", "ctl": "~5,0A", "args": ["one"]},
      "what": "(format nil \"~5,0A\" 1) never returns: the padding loop of ~A/~S adds colinc pad characters until mincol is reached and colinc = 0 adds none. ~mincol,0< and ~n,0T with the same parameter end in integer divide by zero (listed separately). Avoided in generation: ~A/~S whose second parameter is 0, # or v with 0 among the arguments (format.go: fmtRisk, fmt-colinc-zero)."},
-    {"signature": "hang-or-oom fn=common-lisp:expt args=(posint,hugefix)",
-     "witness": {"k": "probe", "sub": "fn", "fn": "common-lisp:expt", "args": ["three", "big62"]},
-     "what": "(expt 3 4611686018427387904) never returns and (expt 4611686018427387904 4611686018427387904) dies with fatal error: out of memory: since the exact-power repair c07d997 the integer power is computed without any bound on the size of the result (a condition is expected). Avoided in generation: expt with 2^62 as second argument (skiptable.go: expt-huge-exponent). Proposed repair: /tmp/fixes/C09-expt-huge-exponent.diff."},
 ]
 
 # Repairs committed in /repo: entries of the previous findings file that no
@@ -95,10 +90,12 @@ def describe(sig, cand_what):
             if m:
                 dirs = m.group(1)
             lead = ''
+            m = re.search(r'src=(.*)$', sig)
+            src = m.group(1) if m else ''
             m = re.search(r'lead=(.*)$', sig)
             if m:
                 lead = m.group(1)
-            for k, v in (('{kind}', kind), ('{fn}', fn), ('{dirs}', dirs), ('{lead}', lead)):
+            for k, v in (('{kind}', kind), ('{fn}', fn), ('{dirs}', dirs), ('{lead}', lead), ('{src}', src)):
                 text = text.replace(k, v)
             return text
     return None
